@@ -15,6 +15,9 @@ def atomic(method, on=None, **kw): return Call(ATOM + "(" + method + ")", on=on,
 # Join (C01, C14)
 
 def join_rules(ctx):
+    flag_values(ctx, [("init", "may::join::Join::new", "may::join::Join.state", 1, "join/state-starts-running", "`state == true` means the coroutine has not finished"),
+                      ("store", "may::join::Join::trigger", "may::join::Join.state", 0, "join/trigger-clears-state", "the finisher publishes `done` as state == false (the value Join::wait leaves on)")])
+    taken_waiter_is_woken(ctx, only=r"join::Join\.to_wake$")
     J = "may::join::Join"
     # trigger: publish, then wake
     ctx.order(J + "::trigger", atomic("store", J + ".state"), ao("take", J + ".to_wake"), "publish-then-wake",
@@ -54,7 +57,8 @@ def join_rules(ctx):
                        "Join::wait: to_wake.store precedes every park and a `state` load lies between them", f.where(sorted(st)[0]))
     # park only on the state==true edge of the re-check
     ctx.guarded(J + "::wait", Call(r"may::sync::blocking::Blocker::park"), call_true(A("load"), J + ".state"),
-                "park-behind-recheck", "Join::wait may park only when the re-check still sees `state == true`",
+                "park-behind-recheck", "Join::wait may park only when the re-check (after registering in to_wake) still sees `state == true`",
+                invalidate=Call(AO + "store", on=J + ".to_wake", transitive=False),
                 pred_label="edge `state.load()` is true", rule="R-SLOT")
     # R-EXIT: return only after having seen state == false, with no park after that observation
     ctx.guarded(J + "::wait", Ev("ret"), call_false(A("load"), J + ".state"), "return-only-when-done",
@@ -454,19 +458,30 @@ def queue_commit_rules(ctx):
     plus_one_rule(POP, MQ + "::Position.index", None, "mpsc/pop-commit-plus-one", "mpsc pop")
     plus_one_rule(SQ + "::Queue::pop", SQ + "::Position.index", SQ + "::Queue.head", "spsc/pop-commit-plus-one", "spsc pop")
     plus_one_rule(SPUSH if False else SQ + "::Queue::push", SQ + "::Position.index", SQ + "::Queue.tail", "spsc/push-commit-plus-one", "spsc push")
-    # the block-boundary test uses the committed index
+    block_boundary_rules(ctx)
+    mpsc_tail_protocol(ctx)
+    mpsc_bulk_value_rules(ctx)
+    spsc_block_recycling_rules(ctx)
+    # the block-boundary test uses the committed index, and the block is advanced on exactly its aligned edge
     f = ctx.fn("R-ENUM", BP, "mpsc/bulk-boundary-test-uses-commit")
     if f is not None:
         stores = [simplify(trace_operand(f, f.node(pt)["args"][1])) for pt in sorted(ctx.an.sites(f, Call(A("store"), on=MQ + "::Position.index", transitive=False), "must"))]
-        ok = False
-        for bi in range(f.nblocks()):
-            if f.is_cleanup(bi) or f.term(bi)["t"] != "sw": continue
-            o = switch_info(f, bi)
-            if o[0] == "bin" and o[1] == "Eq" and is_const(0)(simplify(o[3])):
-                a = simplify(o[2])
-                if a[0] == "bin" and a[1] == "BitAnd" and any(simplify(a[2]) == v for v in stores): ok = True
+        def masked_commit(o):
+            o = simplify(o)
+            return o[0] == "bin" and o[1] == "BitAnd" and any(simplify(o[2]) == v or simplify(o[3]) == v for v in stores)
+        aligned = lambda a: cmp_matches(a, "Eq", masked_commit, is_const(0))
+        es = ctx.edges(f, aligned)
+        ok = bool(es)
         ctx.ob("R-ENUM", BP, "mpsc/bulk-boundary-test-uses-commit", ok, "the block is retired iff the committed index is block-aligned" if ok else
                "mpsc bulk_pop's block-boundary test is not on the index it commits", f.where())
+        if ok:
+            ADV = Call(A("store"), on=MQ + "::Position.block", transitive=False)
+            ctx.guarded(BP, ADV, aligned, "mpsc/bulk-advance-only-when-aligned",
+                        "bulk_pop moves head.block to the next block only when the index it committed is block-aligned (otherwise the unread rest of the block is skipped)",
+                        rule="R-ENUM", pred_label="edge `(committed index & BLOCK_MASK) == 0`")
+            ctx.must_follow(BP, None, ADV, "mpsc/bulk-aligned-advances",
+                            "when the committed index is block-aligned bulk_pop moves head.block on (otherwise the next pop reads the exhausted block again)",
+                            rule="R-ENUM", edge=aligned, edge_label="edge `(committed index & BLOCK_MASK) == 0`")
 
 # ------------------------------------------------------------------------------------------------
 # R-LIN: linear ownership of the suspended coroutine (C01, C02)
@@ -850,5 +865,743 @@ def injected_kinds(ctx, rule="R-ENUM"):
             ctx.ob(rule, base, "injected-kind", kind == exp, "%s injects io::ErrorKind::%s" % (base, exp) if kind == exp else
                    "%s injects %s where the decoders expect %s: park_timeout / the io front-ends map the kind to Timeout (TimedOut) or Canceled (Other) - "
                    "the woken coroutine is told the wrong reason" % (base, "ErrorKind::%s" % kind if kind else "an error of unknown kind", exp), f.where(pt))
-    if n < 4:
-        ctx.missing(rule, "may::yield_now::set_co_para", "injected-kind", "expected >= 4 result injection sites, found %d" % n)
+    # without the io_timeout feature (config `bare`) the io timeout handler and the io deadline re-check do not exist
+    floor = 3 if ctx.cfg == "bare" else 4
+    if n < floor:
+        ctx.missing(rule, "may::yield_now::set_co_para", "injected-kind", "expected >= %d result injection sites, found %d" % (floor, n))
+
+
+def agg_field_origins(ctx, f, adt, var, field):
+    """[(point, origin)] of the operand stored in `field` by every aggregate construction of adt::var in f"""
+    out = []
+    for pt in f.points():
+        if f.is_term(pt): continue
+        n = f.node(pt)
+        if n.get("s") == "=" and n["rv"]["r"] == "agg" and n["rv"].get("ak") == "adt" and norm(n["rv"]["adt"]) == adt and n["rv"].get("var") == var:
+            names = n["rv"].get("fields") or []
+            if field in names:
+                out.append((pt, simplify(trace_operand(f, n["rv"]["ops"][names.index(field)]))))
+    return out
+
+
+def cqueue_selector_slot_rules(ctx, rule="R-ENUM"):
+    """(seed C16-6) a select coroutine's EventSender.id is the index of its JoinHandle in Cqueue.selectors: check_panic(ev.id) joins
+    `selectors[id]`. The index of the next push is the number of pushes so far, which is what `total` counts - not `cnt`, the number
+    of selectors that are still alive. Necessary: the id is read from `total`, `total` is advanced exactly where a handle is pushed,
+    once per push, and the Done event carries the sender's own id."""
+    CQ = "may::cqueue::Cqueue"; AI = CQ + "::add_impl"; ES = "may::cqueue::EventSender"
+    f = ctx.fn(rule, AI, "add/id-is-slot-index")
+    if f is None: return
+    ids = agg_field_origins(ctx, f, ES, "EventSender", "id")
+    if not ids:
+        ctx.missing(rule, AI, "add/id-is-slot-index", "no construction of EventSender in add_impl")
+    else:
+        def from_total(o):
+            while o[0] == "cast": o = simplify(o[1])
+            if o[0] != "call" or not re.fullmatch(A("(load|fetch_add)"), o[2] or ""): return False
+            return receiver_leaf(f, f.term(o[1])) == CQ + ".total"
+        bad = [(pt, o) for pt, o in ids if not from_total(o)]
+        ctx.ob(rule, AI, "add/id-is-slot-index", not bad, "EventSender.id is the value of `total` (the number of handles pushed so far = the index of this selector's handle)" if not bad else
+               "EventSender.id is %s, not the value of Cqueue.total: once a selector has finished, a later one gets an id that is not the index of its own JoinHandle - "
+               "check_panic joins (and takes) another selector's handle" % fmt_origin(bad[0][1]), f.where(bad[0][0] if bad else ids[0][0]))
+    PUSH = Call(r"(alloc|std)::vec::Vec::push", transitive=False)
+    INC = atomic("fetch_add", CQ + ".total", transitive=False)
+    ctx.must_call(AI, PUSH, "add/handle-pushed", "every add stores the selector's JoinHandle", rule=rule)
+    ctx.must_call(AI, INC, "add/total-counts-push", "every add advances `total` (the next selector's slot index)", rule=rule)
+    incs = sorted(ctx.an.sites(f, INC, "must")); pushes = sorted(ctx.an.sites(f, PUSH, "must"))
+    ok1 = len(incs) == 1 and len(pushes) == 1 and const_int(f, f.node(incs[0])["args"][1]) == 1
+    ctx.ob(rule, AI, "add/one-slot-per-selector", ok1, "exactly one push and one `total += 1` per added selector" if ok1 else
+           "add_impl has %d push(es) and %d increment(s) of `total` (or the increment is not 1): ids and slot indices drift apart" % (len(pushes), len(incs)), f.where())
+    writers = sorted(set(g.id.split("::{closure")[0] for g, pt, t, m in ctx.mo_sites(CQ + ".total", ("store", "fetch_add", "fetch_sub", "swap", "compare_exchange", "fetch_update"))))
+    okw = writers == [AI]
+    ctx.ob("R-WHO", CQ + ".total", "add/total-only-advanced-by-add", okw, "`total` is written only by add_impl" if okw else "`total` is also written by %s" % [w for w in writers if w != AI], None)
+    # the Done event carries the id of the sender that is going away
+    DR = "<may::cqueue::EventSender as std::ops::Drop>::drop"
+    g = ctx.fn(rule, DR, "sender-drop/done-carries-own-id")
+    if g is not None:
+        evs = agg_field_origins(ctx, g, "may::cqueue::Event", "Event", "id")
+        okd = bool(evs) and all(all_fields(o)[-1:] == [ES + ".id"] for _, o in evs)
+        ctx.ob(rule, DR, "sender-drop/done-carries-own-id", okd, "the Done event is labelled with the dropped sender's id" if okd else
+               "the Done event built in Drop for EventSender does not carry `self.id`", g.where())
+
+
+def condvar_relock_keeps_guard(ctx, rule="R-PAIR"):
+    """(seed C13-6) Condvar::wait_impl re-acquires the mutex with `lock.lock()` and must leave it locked: the caller still owns the
+    original MutexGuard. Both variants of the LockResult hold a live guard (Err(PoisonError(guard)) too), so neither may be dropped:
+    a dropped guard unlocks the mutex under the caller's feet (two owners) and the caller's guard unlocks it a second time."""
+    WI = "may::sync::condvar::Condvar::wait_impl"
+    f = ctx.fn(rule, WI, "condvar/relock-guard-not-dropped")
+    if f is None: return
+    locks = ctx.an.sites(f, Call(r"may::sync::mutex::Mutex::lock", transitive=False), "must")
+    if not locks:
+        ctx.missing(rule, WI, "condvar/relock-guard-not-dropped", "no call of Mutex::lock in wait_impl"); return
+    drops = [pt for pt in f.points() if f.is_term(pt) and f.node(pt)["t"] == "drop" and "MutexGuard" in f.node(pt)["ty"]]
+    calls = sorted(ctx.an.sites(f, Call(r"(std|core)::mem::drop", transitive=False, where=lambda g, pt, t: "MutexGuard" in (g.locals[t["args"][0].get("m", t["args"][0].get("c", {})).get("l", 0)] if t["args"] and ("m" in t["args"][0] or "c" in t["args"][0]) else "")), "must"))
+    bad = sorted(drops) + calls
+    ctx.ob(rule, WI, "condvar/relock-guard-not-dropped", not bad, "the guard obtained by the re-lock is never dropped in wait_impl (Ok and Poisoned alike): the mutex stays locked for the caller's guard" if not bad else
+           "wait_impl drops a value holding the MutexGuard of its own re-lock: on that path the mutex is released although the caller continues with its guard "
+           "(a poisoned re-lock still returns a live guard inside the PoisonError)", f.where(bad[0]) if bad else f.where())
+    ctx.must_call(WI, Call(r"may::sync::mutex::Mutex::lock", transitive=False), "condvar/always-relocks", "wait_impl re-acquires the mutex on every path before it returns", rule=rule)
+
+
+# ------------------------------------------------------------------------------------------------
+# block-boundary discipline of the block queues (C03, C04, C01, C06): the side that commits an index moves its block pointer to the
+# next block exactly when the committed index is block-aligned
+
+def _sv(o):
+    """strip casts and the (value, overflow) tuple of checked arithmetic"""
+    o = simplify(o)
+    while True:
+        if o[0] == "cast": o = simplify(o[1]); continue
+        if o[0] == "field" and o[2] == "(tuple)" and str(o[3]) == "0" and simplify(o[1])[0] == "bin" and "WithOverflow" in simplify(o[1])[1]:
+            b = simplify(o[1]); o = O("bin", b[1].replace("WithOverflow", ""), b[2], b[3]); continue
+        return o
+
+def _is_mask_const(o):
+    o = _sv(o)
+    return o[0] == "const" and ("BLOCK_MASK" in (o[1] or "") or "BLOCK_MASK" in str(o[4] if len(o) > 4 else ""))
+
+def _plus_one_of(v, f):
+    """if v is x + 1 (checked add or wrapping_add) return x"""
+    v = _sv(v)
+    if v[0] == "bin" and v[1].startswith("Add") and is_const(1)(simplify(v[3])): return _sv(v[2])
+    if v[0] == "call" and (v[2] or "").endswith("wrapping_add"):
+        t = f.term(v[1])
+        if is_const(1)(simplify(trace_operand(f, t["args"][1]))): return _sv(trace_operand(f, t["args"][0]))
+    return None
+
+def block_boundary_rule(ctx, fid, index_on, index_any, block_on, block_any, inst, what, rule="R-ENUM"):
+    f = ctx.fn(rule, fid, inst + "/block-moves-iff-commit-aligned")
+    if f is None: return
+    an = ctx.an
+    IDX = Call(A("store"), on=index_on, on_any=index_any, transitive=False)
+    BLK = Call(A("store"), on=block_on, on_any=block_any, transitive=False)
+    commits = [_sv(trace_operand(f, f.node(pt)["args"][1])) for pt in sorted(an.sites(f, IDX, "must"))]
+    blks = an.sites(f, BLK, "must")
+    if not commits or not blks:
+        ctx.missing(rule, fid, inst + "/block-moves-iff-commit-aligned", "index stores=%d block stores=%d" % (len(commits), len(blks))); return
+    prevs = [x for x in (_plus_one_of(c, f) for c in commits) if x is not None]
+    def aligned(a):
+        if a.kind != "cmp" or a.op != "Eq": return False
+        for x, y in ((a.a, a.b), (a.b, a.a)):
+            x = _sv(x)
+            if x[0] == "bin" and x[1] == "BitAnd" and (_is_mask_const(x[2]) or _is_mask_const(x[3])):
+                inner = _sv(x[3]) if _is_mask_const(x[2]) else _sv(x[2])
+                if is_const(0)(simplify(y)) and inner in commits: return True          # (commit & MASK) == 0
+                if _is_mask_const(y) and inner in prevs: return True                    # (commit - 1) & MASK == MASK
+        return False
+    es = ctx.edges(f, aligned)
+    if not es:
+        ctx.ob(rule, fid, inst + "/block-moves-iff-commit-aligned", False,
+               "%s has no test `(committed index & BLOCK_MASK) == 0` (or its `id == BLOCK_MASK` form) on the index it commits: the decision to move to the next block is not taken on the committed index" % what, f.where())
+        return
+    ctx.guarded(fid, BLK, aligned, inst + "/block-moves-only-if-commit-aligned",
+                "%s moves its block pointer only when the index it commits is block-aligned (moving early skips the unread/unwritten rest of the block)" % what, rule=rule,
+                pred_label="edge `(committed index & BLOCK_MASK) == 0`")
+    ctx.must_follow(fid, None, BLK, inst + "/commit-aligned-moves-block",
+                    "when the committed index is block-aligned %s moves its block pointer on (staying re-uses the finished block: values are read twice / overwritten)" % what, rule=rule,
+                    edge=aligned, edge_label="edge `(committed index & BLOCK_MASK) == 0`")
+
+def block_boundary_rules(ctx):
+    MQ = "may_queue::mpsc"; SQ = "may_queue::spsc"
+    block_boundary_rule(ctx, MQ + "::Queue::pop", MQ + "::Position.index", None, MQ + "::Position.block", None, "mpsc/pop", "mpsc pop")
+    block_boundary_rule(ctx, MQ + "::Queue::fast_bulk_pop", MQ + "::Position.index", None, MQ + "::Position.block", None, "mpsc/fast_bulk_pop", "mpsc fast_bulk_pop")
+    block_boundary_rule(ctx, SQ + "::Queue::pop", SQ + "::Position.index", SQ + "::Queue.head", SQ + "::Position.block", SQ + "::Queue.head", "spsc/pop", "spsc pop")
+    block_boundary_rule(ctx, SQ + "::Queue::bulk_pop", SQ + "::Position.index", SQ + "::Queue.head", SQ + "::Position.block", SQ + "::Queue.head", "spsc/bulk_pop", "spsc bulk_pop")
+    block_boundary_rule(ctx, SQ + "::Queue::push", SQ + "::Position.index", SQ + "::Queue.tail", SQ + "::Position.block", SQ + "::Queue.tail", "spsc/push", "spsc push")
+    # spsc push links the new block before it moves to it
+    f = ctx.prog.fn(SQ + "::Queue::push")
+    if f is not None:
+        lk = ctx.an.sites(f, atomic("store", SQ + "::BlockNode.next", transitive=False), "must")
+        mv = ctx.an.sites(f, Call(A("store"), on=SQ + "::Position.block", on_any=SQ + "::Queue.tail", transitive=False), "must")
+        r = ctx.an.reach(f, [Point(0, 0)], blocked=lk | mv)
+        # every path that moves the tail block also links the new block (in either order) before it returns
+        bad = []
+        for m in mv:
+            before = m not in ctx.an.reach(f, [Point(0, 0)], blocked=lk)
+            after = not any(x in ctx.an.reach(f, ctx.an.after(f, m), blocked=lk) for x in f.ret_points())
+            if not (before or after): bad.append(m)
+        pub = ctx.an.sites(f, Call(A("store"), on=SQ + "::Position.index", on_any=SQ + "::Queue.tail", transitive=False), "must")
+        late = [x for x in lk | mv if x in ctx.an.reach(f, [q for s0 in pub for q in ctx.an.after(f, s0)])]
+        ctx.ob("R-ORDER", f.id, "spsc/push/link-then-publish", bool(pub) and not late, "the new block is linked before tail.index publishes the index that makes the consumer follow the link" if pub and not late else
+               "spsc push links / moves to the new block after publishing tail.index", f.where((late or sorted(pub) or [None])[0]))
+        ctx.ob("R-ENUM", f.id, "spsc/push/moved-block-is-linked", bool(lk) and bool(mv) and not bad, "a push that moves to a new block also links it behind the old one" if lk and mv and not bad else
+               "spsc push moves tail.block to a new block without linking it through the old block's `next`: the consumer reaches the end of the old block and finds no successor", f.where((bad or sorted(mv) or [None])[0]))
+
+
+# ------------------------------------------------------------------------------------------------
+# mpsc push: the packed tail word (block pointer | slot id, bit 63 = "tail transition in progress")
+
+def _split_top(t):
+    out = []; d = 0; cur = ""
+    for ch in t:
+        if ch in "<([": d += 1
+        elif ch in ">)]": d -= 1
+        if ch == "," and d == 0: out.append(cur.strip()); cur = ""
+        else: cur += ch
+    if cur.strip(): out.append(cur.strip())
+    return out
+
+def field_type(f, o):
+    """static type of a field projection origin ('field', base, adt | '(tuple)', name | index)"""
+    o = simplify(o)
+    if o[0] != "field": return None
+    if o[2] == "(tuple)":
+        bt = type_of_origin(f, simplify(o[1]))
+        if not bt or not bt.strip().startswith("("): return None
+        parts = _split_top(bt.strip()[1:-1])
+        try: return parts[int(o[3])]
+        except (ValueError, IndexError): return None
+    a = f.prog.adts.get(norm(o[2]))
+    if not a: return None
+    for v in a.get("variants", []):
+        for fl in v.get("fields", []):
+            if fl["n"] == str(o[3]): return fl["t"]
+    return None
+
+def _w_unpack_field(o, idx, suffix, f=None):
+    """field `idx` of the result of BlockPtr::unpack: 0 = the block pointer, 1 = the slot id - as a tuple position, or (when the result
+    is a struct) the field of pointer resp. usize type"""
+    o = _sv(o)
+    if not (o[0] == "field" and simplify(o[1])[0] == "call" and (simplify(o[1])[2] or "").endswith(suffix)): return False
+    if o[2] == "(tuple)": return str(o[3]) == str(idx)
+    if f is None: return False
+    t = field_type(f, o) or ""
+    return (t.strip() == "usize") if idx == 1 else t.strip().startswith("*")
+
+def _w_lock_bit(o):
+    o = _sv(o)
+    if o[0] == "const" and o[2] is not None:
+        try: return int(o[2]) == 1 << 63
+        except (TypeError, ValueError): return False
+    return o[0] == "bin" and o[1] == "Shl" and is_const(1)(simplify(o[2])) and is_const(63)(simplify(o[3]))
+
+def _w_locks(o):
+    o = _sv(o)
+    return o[0] == "bin" and o[1] == "BitOr" and (_w_lock_bit(o[2]) or _w_lock_bit(o[3]))
+
+def mpsc_tail_protocol(ctx):
+    MQ = "may_queue::mpsc"; fid = MQ + "::Queue::push"; TAIL = MQ + "::BlockPtr.0"
+    cas = A("compare_exchange(_weak)?")
+    f = ctx.fn("R-ENUM", fid, "mpsc/push/tail-protocol")
+    if f is None: return
+    an = ctx.an
+    cs = sorted(an.sites(f, Call(cas, on=TAIL, transitive=False), "must"))
+    stores = sorted(an.sites(f, Call(A("store"), on=TAIL, transitive=False), "must"))
+    ok_edges = ctx.edges(f, variant_of_call(cas, "Ok"))
+    if len(cs) != 1 or not stores or not ok_edges:
+        ctx.missing("R-ENUM", fid, "mpsc/push/tail-protocol", "tail CAS sites=%d tail stores=%d CAS-Ok edges=%d" % (len(cs), len(stores), len(ok_edges))); return
+    UNP = "mpsc::BlockPtr::unpack"
+    is_id = lambda o: _w_unpack_field(o, 1, UNP, f)
+    newv = simplify(trace_operand(f, f.node(cs[0])["args"][2]))
+    alts = [simplify(a) for a in newv[2]] if newv[0] == "phi" else [newv]
+    shape = len(alts) == 2 and sum(1 for a in alts if _w_locks(a)) == 1 and sum(1 for a in alts if a[0] == "call" and (a[2] or "").endswith("BlockPtr::pack")) == 1
+    ctx.ob("R-ENUM", fid, "mpsc/push/new-tail-is-pack-or-lock", shape, "the value push CASes into tail is either pack(block, id + 1) or the old tail with the transition-lock bit" if shape else
+           "mpsc push CASes %s into tail (expected: pack(..) inside the block, tail | 1<<63 at the last slot)" % fmt_origin(newv)[:200], f.where(cs[0]))
+    if not shape: return
+    pre = an.reach(f, [Point(0, 0)], blocked=set(cs))
+    packs = [p0 for p0 in sorted(an.sites(f, Call(re.escape(MQ) + "::BlockPtr::pack", transitive=False), "must")) if p0 in pre]
+    okp = False
+    for p0 in packs:
+        a0, a1 = [simplify(trace_operand(f, x)) for x in f.node(p0)["args"][:2]]
+        b = _sv(a1)
+        okp = b[0] == "bin" and b[1].startswith("Add") and is_id(b[2]) and is_const(1)(simplify(b[3])) and (_w_unpack_field(a0, 0, UNP, f) or _w_unpack_field(_sv(a0)[1] if _sv(a0)[0] in ("ref", "deref") else a0, 0, UNP, f) or
+              UNP in fmt_origin(a0))
+    ctx.ob("R-ENUM", fid, "mpsc/push/claim-advances-by-one", okp, "a producer's claim CASes tail to pack(block, id + 1): the next producer writes the next slot" if okp else
+           "mpsc push does not CAS tail to pack(block, id + 1): two producers write the same slot (a message overwritten = lost) or a slot stays empty (the consumer waits on it forever)",
+           f.where(packs[0]) if packs else f.where())
+    inside = lambda a: a.kind == "cmp" and ((a.op in ("Lt", "Ne") and is_id(a.a) and _is_mask_const(a.b)) or (a.op == "Gt" and is_id(a.b) and _is_mask_const(a.a)))
+    last = lambda a: a.kind == "cmp" and ((a.op in ("Ge", "Eq") and is_id(a.a) and _is_mask_const(a.b)) or (a.op in ("Le", "Eq") and is_id(a.b) and _is_mask_const(a.a)))
+    if packs:
+        ctx.guarded(fid, lambda g: packs, inside, "mpsc/push/pack-only-inside-block", "the plain pack(..) tail is used only when the claimed slot is not the last of its block", rule="R-ENUM",
+                    pred_label="edge `id < BLOCK_MASK`")
+    lock_defs = [pt for pt in f.points() if not f.is_term(pt) and f.node(pt).get("s") == "=" and pt in pre and _w_locks(trace_rvalue(f, f.node(pt)["rv"], 0, pt))]
+    if not lock_defs:
+        ctx.missing("R-ENUM", fid, "mpsc/push/lock-only-at-last-slot", "no `tail | (1 << 63)` assignment before the CAS")
+    else:
+        ctx.guarded(fid, lambda g: lock_defs, last, "mpsc/push/lock-only-at-last-slot", "the transition lock is requested only by the producer that claims the last slot of the block", rule="R-ENUM",
+                    pred_label="edge `id < BLOCK_MASK` is false")
+    post = [Point(tb, 0) for _, tb, _ in ok_edges]
+    post_reach = an.reach(f, post)
+    post_last = [(bi, tb, lab) for (bi, tb, lab) in ctx.edges(f, last) if Point(bi, 0) in post_reach]
+    post_stores = set(x for x in stores if x in post_reach)
+    if not post_last or not post_stores:
+        ctx.missing("R-PAIR", fid, "mpsc/push/lock-released", "post-claim `id == BLOCK_MASK` edges=%d tail stores=%d" % (len(post_last), len(post_stores))); return
+    starts = [Point(tb, 0) for _, tb, _ in post_last]
+    r = an.reach(f, starts, blocked=post_stores)
+    bad = [x for x in f.ret_points() if x in r]
+    ctx.ob("R-PAIR", fid, "mpsc/push/lock-released", not bad, "the producer that took the transition lock always stores the next block into tail before it returns" if not bad else
+           "mpsc push can return from the last-slot path without storing tail: the lock bit stays set and every later push spins forever on its CAS", f.where(sorted(post_stores)[0]))
+    blk, good = ctx.edge_blocker(f, last)
+    good_post = set(e for e in good if Point(e[0], 0) in post_reach)
+    blk2 = lambda p, q, lab: f.is_term(p) and (p.bb, q.bb) in good_post
+    bad2 = [x for x in post_stores if x in an.reach(f, post, blocked_edges=blk2)]
+    ctx.ob("R-PAIR", fid, "mpsc/push/store-only-under-lock", not bad2, "tail is overwritten with a plain store only by the producer that holds the transition lock" if not bad2 else
+           "mpsc push stores to tail on a path that did not take the transition lock: concurrent producers' claims are overwritten (messages lost / slots written twice)", f.where((bad2 or sorted(post_stores))[0]))
+    # the block stored is the successor of the claimed block, and its own successor is installed first
+    okn = all(is_call_result(re.escape(MQ) + r"::BlockNode::wait_next_block|" + A("load"))(_sv(trace_operand(f, f.node(x)["args"][1])) if _sv(trace_operand(f, f.node(x)["args"][1]))[0] == "call" else
+              root_of(_sv(trace_operand(f, f.node(x)["args"][1])))) for x in post_stores)
+    ctx.ob("R-ENUM", fid, "mpsc/push/tail-moves-to-next-block", okn, "the unlocked tail is the claimed block's successor (wait_next_block)" if okn else
+           "mpsc push stores something else than the claimed block's successor into tail", f.where(sorted(post_stores)[0]))
+    inst = an.sites(f, atomic("store", MQ + "::BlockNode.next", transitive=False), "must")
+    r3 = an.reach(f, post, blocked=inst)
+    bad3 = [x for x in post_stores if x in r3]
+    ctx.ob("R-ORDER", fid, "mpsc/push/install-next-next-then-unlock", bool(inst) and not bad3, "the block after the next is installed before the tail is unlocked on the next block (its last-slot producer waits for that link)" if inst and not bad3 else
+           "mpsc push unlocks the tail on the next block before installing that block's successor", f.where((bad3 or sorted(post_stores))[0]))
+
+
+def mpsc_bulk_value_rules(ctx, rule="R-PAIR"):
+    """mpsc fast_bulk_pop / bulk_pop: values taken out of slots are committed and handed to the caller"""
+    MQ = "may_queue::mpsc"
+    FB = MQ + "::Queue::fast_bulk_pop"; BP = MQ + "::Queue::bulk_pop"
+    IDX = Call(A("store"), on=MQ + "::Position.index", transitive=False)
+    EMPTY = r"smallvec::SmallVec::is_empty"
+    f = ctx.prog.fn(FB)
+    if f is not None and ctx.edges(f, call_false(EMPTY)):
+        ctx.guarded(FB, IDX, call_false(EMPTY), "mpsc/fast-bulk/commit-only-if-values", "fast_bulk_pop moves head.index only when it took at least one value (an unchanged index that is block-aligned would retire a block that was not read)",
+                    rule=rule, pred_label="edge `value.is_empty()` is false")
+        ctx.must_follow(FB, None, IDX, "mpsc/fast-bulk/values-committed", "values taken by fast_bulk_pop are always committed to head.index before they are returned (otherwise the next pop reads the same slots again)",
+                        rule=rule, edge=call_false(EMPTY), edge_label="edge `value.is_empty()` is false")
+    elif f is not None:
+        ctx.missing(rule, FB, "mpsc/fast-bulk/commit-only-if-values", "no `is_empty()` test in fast_bulk_pop")
+    g = ctx.fn(rule, BP, "mpsc/bulk/fast-values-returned")
+    if g is not None:
+        drops = [pt for pt in g.points() if g.is_term(pt) and g.node(pt)["t"] == "drop" and "SmallVec<[T;" in g.node(pt)["ty"]]
+        if not ctx.edges(g, any_of(call_true(EMPTY), call_false(EMPTY))):
+            ctx.missing(rule, BP, "mpsc/bulk/fast-values-returned", "no `is_empty()` test on the fast path result in bulk_pop")
+        elif drops:
+            ctx.guarded(BP, lambda h: drops, call_true(EMPTY), "mpsc/bulk/fast-values-returned", "the batch returned by the fast path is dropped only when it is empty (a non-empty batch is handed to the caller)",
+                        rule=rule, pred_label="edge `v.is_empty()` is true")
+        else:
+            ctx.ob(rule, BP, "mpsc/bulk/fast-values-returned", True, "bulk_pop never drops a batch on a normal path", g.where(), nontrivial=False)
+
+def spsc_block_recycling_rules(ctx, rule="R-EXIT"):
+    """spsc alloc_node (feature inner_cache): a block is recycled for the producer only while it lies strictly before the consumer's
+    (cached) head block, and the recycle list moves on past a block that was handed out"""
+    SQ = "may_queue::spsc"; AN = SQ + "::Queue::alloc_node"
+    f = ctx.prog.fn(AN)
+    if f is None: return           # feature off: nothing is recycled
+    ctx.fns_touched.add(f.id)
+    PEQ = r"(std|core)::ptr::(eq|const_ptr::eq|mut_ptr::eq)"
+    ADV = Call(A("store"), on=SQ + "::Queue.first", transitive=False)
+    if not ctx.an.sites(f, ADV, "must") or not ctx.edges(f, call_false(PEQ)):
+        ctx.missing(rule, AN, "spsc/recycle-only-behind-head", "first.store sites=%d `ptr::eq(first, last_head)` false edges=%d" % (len(ctx.an.sites(f, ADV, "must")), len(ctx.edges(f, call_false(PEQ))))); return
+    ctx.guarded(AN, ADV, call_false(PEQ), "spsc/recycle-only-behind-head", "a cached block is handed back to the producer only when it is not the block the consumer is (last known to be) reading",
+                rule=rule, pred_label="edge `ptr::eq(first, last_head)` is false")
+    # after the first, failed test the consumer's head is re-read before the second one
+    NEW = Call(re.escape(SQ) + "::BlockNode::new", transitive=False)
+    if ctx.an.sites(f, NEW, "must"):
+        ctx.guarded(AN, NEW, call_true(PEQ), "spsc/fresh-block-only-if-cache-empty", "a fresh block is allocated only when the recycle list has nothing before the consumer's head", rule=rule,
+                    pred_label="edge `ptr::eq(first, last_head)` is true")
+    # every non-equal edge leads to a store of first (the handed-out block leaves the recycle list) before returning
+    es = ctx.edges(f, call_false(PEQ))
+    adv = ctx.an.sites(f, ADV, "must")
+    r = ctx.an.reach(f, [Point(tb, 0) for _, tb, _ in es], blocked=adv | set(ctx.an.sites(f, Call(PEQ, transitive=False), "must")))
+    bad = [x for x in f.ret_points() if x in r]
+    ctx.ob("R-PAIR", AN, "spsc/recycled-block-leaves-cache", not bad, "a block that is handed out is taken off the recycle list (first = first.next)" if not bad else
+           "alloc_node can hand out the cached block without advancing `first`: the same block is handed out again while it is linked in the live queue (the list becomes cyclic, unread values are overwritten)", f.where(sorted(adv)[0]))
+
+
+# ------------------------------------------------------------------------------------------------
+# whoever takes a waiter out of its slot wakes it (C01 C02 C06 C07 C08 C16): the slot is the only reference the waker side has
+
+WAITER_TY = re.compile(r"^std::option::Option<(std::sync::Arc<)?(may::sync::blocking::Blocker|may::sync::spsc::Blocker|std::thread::Thread|may::sync::blocking::ThreadPark)>?>$")
+
+def taken_waiter_is_woken(ctx, only=None, rule="R-PAIR"):
+    """every function that takes a parked waiter (Arc<Blocker> / spsc::Blocker / Arc<Thread>) out of an AtomicOption slot and is not the
+    waiter itself (it does not store into that slot) nor the owner's Drop unparks it on every path from the `Some` edge to its exit.
+    only: optional regex on the slot ("Adt.field") to restrict the instances to the slots a property speaks about."""
+    n = 0
+    for k, g in sorted(ctx.prog.fns.items()):
+        if not k.startswith(("may::", "<may::")): continue
+        takes = []
+        for pt in g.points():
+            if not g.is_term(pt): continue
+            t = g.node(pt)
+            if t["t"] != "call" or not (callee_name(t) or "").endswith("sync::atomic_option::AtomicOption::take"): continue
+            rty = (type_of_place(g, t["d"]) or "").replace("'_, ", "")
+            if not WAITER_TY.match(rty): continue
+            takes.append((pt, receiver_leaf(g, t)))
+        for pt, slot in takes:
+            if slot is None or (only and not re.search(only, slot)): continue
+            owner = slot.rsplit(".", 1)[0]
+            if ctx.an.sites(g, Call(AO + "store", on=slot, transitive=False), "must"): continue        # the waiter removing its own registration
+            if k.startswith("<" + owner + " as std::ops::Drop>::drop"): continue                          # nobody can wait on a value that is being dropped
+            n += 1
+            inst = "taken-waiter-woken:" + slot.rsplit("::", 1)[-1]
+            some = lambda a, pt=pt: a.kind == "variant" and a.name == "Some" and simplify(a.origin)[0] == "call" and simplify(a.origin)[1] == pt.bb
+            es = ctx.edges(g, some)
+            wake = ctx.an.sites(g, Call(r".*::unpark", transitive=False), "must")
+            if not es:
+                # `slot.take().map(|w| w.unpark())`: the taken Option goes straight into a combinator whose closure wakes
+                okc = False
+                for q in g.points():
+                    if not g.is_term(q) or g.node(q)["t"] != "call": continue
+                    t2 = g.node(q)
+                    if not re.search(r"option::Option::(map|map_or|map_or_else|and_then|inspect|into_iter)$|Iterator::for_each$", callee_name(t2) or ""): continue
+                    if not t2["args"]: continue
+                    o0 = simplify(trace_operand(g, t2["args"][0]))
+                    if not (o0[0] == "call" and o0[1] == pt.bb): continue
+                    for cid in closure_args(g, t2):
+                        c = ctx.prog.fn(norm(cid))
+                        if c is not None and ctx.an.must(c, Call(r".*::unpark", transitive=False)): okc = True
+                ctx.ob(rule, k, inst, okc, "the waiter taken out of %s is unparked by the closure it is mapped with" % slot if okc else
+                       "%s takes the waiter out of %s but never looks whether there was one (the taken waiter is dropped un-woken)" % (k, slot), g.where(pt)); continue
+            r = ctx.an.reach(g, [Point(tb, 0) for _, tb, _ in es], blocked=wake)
+            bad = [x for x in g.ret_points() if x in r]
+            ctx.ob(rule, k, inst, not bad, "the waiter taken out of %s is unparked on every path" % slot if not bad else
+                   "%s takes the parked waiter out of %s and can return without unparking it: nobody else holds a reference to that waiter, it sleeps until its timeout or for ever" % (k, slot),
+                   g.where(pt), detail=ctx.an.fmt_path(g, ctx.an.path(g, [Point(tb, 0) for _, tb, _ in es], bad, blocked=wake)) if bad else None)
+    return n
+
+
+# ------------------------------------------------------------------------------------------------
+# timer list: an interval list is in the heap at most once, and whenever it has a head (C08, C19)
+
+def interval_list_claim_rules(ctx, rule="R-PAIR"):
+    """`in_use` is the claim on "this interval list has its entry in the binary heap": whoever moves it 0 -> 1 pushes the entry, the
+    scheduler that pops the entry gives the claim back (store 0) BEFORE it consumes the list, and afterwards re-claims when entries
+    are left. A push without the claim duplicates the entry (a timer fires twice / the heap grows), a claim without a push or a pop
+    without the give-back strands the list: none of its timers ever fires again."""
+    TL = "may::timeout_list"; TOL = TL + "::TimeOutList"
+    INUSE = TL + "::TimeoutQueueWrapper.in_use"
+    HPUSH = Call(r"(std|alloc)::collections::(binary_heap::)?BinaryHeap::push", transitive=False)
+    HPOP = Call(r"(std|alloc)::collections::(binary_heap::)?BinaryHeap::pop", transitive=False)
+    CLAIM = atomic("fetch_add", INUSE, transitive=False)
+    claimed = lambda a: cmp_matches(a, "Eq", is_call_result(A("fetch_add")), is_const(0))
+    n_push = 0
+    for fid in (TOL + "::install_timer_bh", TOL + "::schedule_timer", TOL + "::add_timer"):
+        f = ctx.prog.fn(fid)
+        if f is None: continue
+        pushes = ctx.an.sites(f, HPUSH, "must")
+        if not pushes: continue
+        n_push += len(pushes)
+        short = fid.rsplit("::", 1)[-1]
+        ctx.guarded(fid, HPUSH, claimed, "list/heap-push-only-with-claim:" + short, "%s pushes an interval entry into the heap only after moving the list's in_use from 0 to 1" % short,
+                    rule=rule, pred_label="edge `in_use.fetch_add(1) == 0`")
+        ctx.must_follow(fid, None, HPUSH, "list/claim-always-pushes:" + short, "a taken claim is always followed by the heap push (otherwise the list is marked installed but no heap entry exists)",
+                        rule=rule, edge=claimed, edge_label="edge `in_use.fetch_add(1) == 0`")
+        for pt in sorted(ctx.an.sites(f, CLAIM, "must")):
+            ok = const_int(f, f.node(pt)["args"][1]) == 1
+            ctx.ob("R-ENUM", fid, "list/claim-adds-one:" + short, ok, "the claim is fetch_add(1)" if ok else "the in_use claim does not add exactly 1", f.where(pt))
+    if n_push < 3:
+        ctx.missing(rule, TOL, "list/heap-push-sites", "expected >= 3 BinaryHeap::push sites in install_timer_bh / schedule_timer, found %d" % n_push)
+    ST = TOL + "::schedule_timer"
+    f = ctx.fn(rule, ST, "list/pop-gives-claim-back")
+    if f is None: return
+    an = ctx.an
+    GIVE = Call(A("store"), on=INUSE, transitive=False)
+    POPT = Call(re.escape(TL) + "::IntervalEntry::pop_timeout", transitive=False)
+    pops = an.sites(f, HPOP, "must"); gives = an.sites(f, GIVE, "must"); popt = an.sites(f, POPT, "must")
+    if not pops or not gives or not popt:
+        ctx.missing(rule, ST, "list/pop-gives-claim-back", "heap pop=%d in_use.store=%d pop_timeout=%d" % (len(pops), len(gives), len(popt))); return
+    r = an.reach(f, [q for s0 in pops for q in an.after(f, s0)], blocked=gives)
+    bad = [x for x in popt if x in r]
+    okv = all(const_int(f, f.node(g)["args"][1]) == 0 for g in gives)
+    ctx.ob(rule, ST, "list/pop-gives-claim-back", not bad and okv, "the scheduler resets in_use to 0 after popping the heap entry and before it consumes the list (a timer pushed while it consumes re-installs the list)" if not bad and okv else
+           "schedule_timer consumes a popped interval list without giving the in_use claim back first (or stores a non-zero value): no later push / re-install ever sees in_use == 0, the list is "
+           "never put back into the heap and its timers never fire", f.where(sorted(gives)[0]))
+    r2 = an.reach(f, [Point(0, 0)], blocked=pops)
+    bad2 = [g for g in gives if g in r2]
+    ctx.ob(rule, ST, "list/claim-reset-only-after-pop", not bad2, "in_use is reset only by the scheduler that has just popped the list's heap entry" if not bad2 else
+           "schedule_timer resets in_use without having popped the heap entry: the list can be installed twice", f.where((bad2 or sorted(gives))[0]))
+    # after consuming: entries left => re-claim is attempted; nothing left => only then the map entry may be removed
+    some = variant_of_call(re.escape(TL) + "::IntervalEntry::pop_timeout", "Some")
+    claims = an.sites(f, CLAIM, "must")
+    es = ctx.edges(f, some)
+    if not es or not claims:
+        ctx.missing(rule, ST, "list/left-over-reclaims", "pop_timeout Some edges=%d claims=%d" % (len(es), len(claims)))
+    else:
+        stop = claims
+        r3 = an.reach(f, [Point(tb, 0) for _, tb, _ in es], blocked=stop)
+        bad3 = [x for x in list(popt) + f.ret_points() if x in r3]
+        ctx.ob(rule, ST, "list/left-over-reclaims", not bad3, "when pop_timeout reports a next expiry the scheduler always tries to re-install the list" if not bad3 else
+               "schedule_timer can go on after pop_timeout returned Some(next) without trying to re-claim the list: the remaining timers of that interval are never scheduled", f.where(sorted(claims)[0]))
+    EMPTY = r"may_queue::mpsc_list_v1::Queue::is_empty"
+    if ctx.edges(f, call_false(EMPTY)):
+        ctx.must_follow(ST, None, CLAIM, "list/refilled-list-reclaims", "a list that was refilled while the scheduler held the map lock is re-claimed", rule=rule,
+                        edge=call_false(EMPTY), edge_label="edge `list.is_empty()` is false", exits=lambda g: set(g.ret_points()) | set(popt))
+        rm = Call(r"(std|hashbrown)::collections::(hash::map::|hash_map::)?HashMap::remove", transitive=False)
+        if an.sites(f, rm, "must"):
+            ctx.guarded(ST, rm, call_true(EMPTY), "list/map-remove-only-if-empty", "an interval list is removed from the map only when it is empty under the write lock (a removed non-empty list is unreachable for later "
+                        "timers of that interval while its own entries still wait for a heap entry)", rule="R-EXIT", pred_label="edge `list.is_empty()` is true")
+    else:
+        ctx.missing(rule, ST, "list/refilled-list-reclaims", "no `is_empty()` re-check in schedule_timer")
+    # pop_timeout: every popped entry is handed to the handler
+    PT = TL + "::IntervalEntry::pop_timeout"
+    g = ctx.prog.fn(PT)
+    if g is not None:
+        ctx.must_follow(PT, None, Call(r".*::ops::(Fn|FnMut|FnOnce)::call(_mut|_once)?", transitive=False), "list/popped-entry-handled", "every expired entry taken off the list is passed to the timeout handler",
+                        rule=rule, edge=variant_of_call(r"may_queue::mpsc_list_v1::Queue::pop_if", "Some"), edge_label="edge `pop_if()` is Some",
+                        exits=lambda h: set(h.ret_points()) | ctx.an.sites(h, Call(r"may_queue::mpsc_list_v1::Queue::pop_if", transitive=False), "must"))
+    # add_timer reports "recalculate" for a list it created
+    AT = TOL + "::add_timer"
+    h = ctx.prog.fn(AT)
+    if h is not None:
+        bad = []; n = 0
+        for pt in h.points():
+            if h.is_term(pt): continue
+            nd = h.node(pt)
+            if nd.get("s") == "=" and nd["rv"]["r"] == "agg" and nd["rv"].get("ak") == "tuple" and len(nd["rv"]["ops"]) == 2 and (type_of_place(h, nd["lhs"]) if "lhs" in nd else "") is not None:
+                o1 = simplify(trace_operand(h, nd["rv"]["ops"][1]))
+                t1 = None
+                if o1[0] == "const": 
+                    n += 1
+                    try: t1 = int(o1[2])
+                    except (TypeError, ValueError): t1 = None
+                    if t1 != 1: bad.append(pt)
+        ctx.ob("R-ENUM", AT, "list/new-list-reports-head", n >= 1 and not bad, "add_timer reports `true` (recalculate the next expiry) for the first entry of a list it created" if n >= 1 and not bad else
+               "add_timer reports a constant `false` for a list it created itself: the timer thread is not woken, the timer fires only when something else wakes it", h.where(bad[0]) if bad else h.where())
+
+
+# ------------------------------------------------------------------------------------------------
+# flag encodings: which constant a protocol flag starts with / is set to by a given function
+
+def flag_values(ctx, items, rule="R-ENUM"):
+    """items: (kind, fid, 'Adt.field', expected int, instance, why)  kind = 'init' (the field of the aggregate built in fid is
+    Atomic*::new(const)) | 'store' (every direct store/swap to the field in fid writes that constant)"""
+    for kind, fid, fld, exp, inst, why in items:
+        f = ctx.fn(rule, fid, inst)
+        if f is None: continue
+        adt, name = fld.rsplit(".", 1)
+        if kind == "init":
+            vals = []
+            for pt, o in agg_field_origins(ctx, f, adt, adt.rsplit("::", 1)[-1], name):
+                o = simplify(o)
+                if o[0] == "call" and re.search(r"atomic::Atomic\w*::new$|convert::Into::into$|convert::From::from$", o[2] or ""):
+                    vals.append((pt, const_int(f, f.term(o[1])["args"][0])))
+                elif o[0] == "const":
+                    try: vals.append((pt, int(o[2])))
+                    except (TypeError, ValueError): vals.append((pt, None))
+                else:
+                    vals.append((pt, None))
+        else:
+            vals = [(pt, const_int(f, f.node(pt)["args"][1])) for pt in sorted(ctx.an.sites(f, Call(A("(store|swap)"), on=fld, transitive=False), "must"))]
+        if not vals:
+            ctx.missing(rule, fid, inst, "no %s of %s found in %s" % ("initialisation" if kind == "init" else "store", fld, fid)); continue
+        bad = [(pt, v) for pt, v in vals if v != exp]
+        ctx.ob(rule, fid, inst, not bad, "%s: %s %s %s to %s" % (why, fid.rsplit("::", 1)[-1], "initialises" if kind == "init" else "sets", name, bool(exp) if exp in (0, 1) else exp) if not bad else
+               "%s: %s %s %s to %s instead of %s" % (why, fid, "initialises" if kind == "init" else "sets", fld, [v for _, v in bad], exp), f.where((bad or vals)[0][0]))
+
+
+# ------------------------------------------------------------------------------------------------
+# CancelImpl.state encoding (C09, C14, C15): bit 0 = cancel requested, every disable adds 2
+
+def cancel_state_encoding(ctx, rule="R-ENUM"):
+    C = "may::cancel::CancelImpl"; ST = C + ".state"
+    def rmw(fid, method, val, inst, why):
+        f = ctx.fn(rule, fid, inst)
+        if f is None: return
+        sites = sorted(ctx.an.sites(f, Call(A(method), on=ST, transitive=False), "must"))
+        ok = len(sites) == 1 and ctx.an.must(f, Call(A(method), on=ST, transitive=False))
+        got = None
+        if ok:
+            v = simplify(trace_operand(f, f.node(sites[0])["args"][1]))
+            got = const_int(f, f.node(sites[0])["args"][1])
+            if got is None and v[0] == "un" and v[1] == "Not" and is_const(1)(simplify(v[2])): got = "!1"
+            ok = got == val
+        ctx.ob(rule, fid, inst, ok, "%s: %s(%s)" % (why, method, val) if ok else "%s: %s must be exactly one `state.%s(%s)` on every path (found %s, value %s)" % (why, fid, method, val, len(sites), got), f.where(sites[0]) if sites else f.where())
+    rmw(C + "::disable_cancel", "fetch_add", 2, "cancel-state/disable-adds-2", "a disable is counted above the cancel bit")
+    rmw(C + "::enable_cancel", "fetch_sub", 2, "cancel-state/enable-subs-2", "an enable takes back exactly one disable")
+    rmw(C + "::cancel", "fetch_or", 1, "cancel-state/cancel-sets-bit0", "cancel() requests the cancel in bit 0")
+    if ctx.prog.fn(C + "::clear_cancel_bit") is not None:
+        f = ctx.prog.fn(C + "::clear_cancel_bit")
+        sites = sorted(ctx.an.sites(f, Call(A("fetch_and"), on=ST, transitive=False), "must"))
+        ok = False
+        for pt in sites:
+            v = simplify(trace_operand(f, f.node(pt)["args"][1]))
+            ci = const_int(f, f.node(pt)["args"][1])
+            ok = (v[0] == "un" and v[1] == "Not" and is_const(1)(simplify(v[2]))) or (ci is not None and (ci & 1) == 0 and (ci | 1) in (2**64 - 1, 2**32 - 1, -1))
+        ok = ok and ctx.an.must(f, Call(A("fetch_and"), on=ST, transitive=False))
+        ctx.ob(rule, C + "::clear_cancel_bit", "cancel-state/clear-clears-only-bit0", ok, "clear_cancel_bit clears exactly bit 0 (the disable count is kept)" if ok else
+               "clear_cancel_bit does not perform `state.fetch_and(!1)`", f.where(sites[0]) if sites else f.where())
+    # readers
+    def reader(fid, pred, inst, good, badmsg):
+        f = ctx.fn(rule, fid, inst)
+        if f is None: return
+        rv = simplify(trace_local(f, 0))
+        ok = pred(f, rv)
+        ctx.ob(rule, fid, inst, ok, good if ok else badmsg + " (found %s)" % fmt_origin(rv)[:120], f.where())
+    def cmp_load(op, c):
+        def p(f, o):
+            if o[0] != "bin": return False
+            a, b = simplify(o[2]), simplify(o[3])
+            isld = lambda x: x[0] == "call" and re.fullmatch(A("load"), x[2] or "") and receiver_leaf(f, f.term(x[1])) == ST
+            if o[1] == op and isld(a) and is_const(c)(b): return True
+            if CMP_SWAP.get(o[1]) == op and isld(b) and is_const(c)(a): return True
+            # x >= 2  ==  x > 1
+            if op == "Ge" and o[1] == "Gt" and isld(a) and is_const(c - 1)(b): return True
+            if op == "Ge" and o[1] == "Lt" and isld(b) and is_const(c - 1)(a): return True
+            return False
+        return p
+    reader(C + "::is_canceled", cmp_load("Eq", 1), "cancel-state/is-canceled-means-exactly-1", "is_canceled() is `state == 1`: requested and not disabled",
+           "is_canceled() is not `state.load() == 1`: a disabled cancel is reported (the blocking calls of a region that must not be cancelled return at once / panic) or a request is missed")
+    reader(C + "::is_disabled", cmp_load("Ge", 2), "cancel-state/is-disabled-means-ge-2", "is_disabled() is `state >= 2`",
+           "is_disabled() is not `state.load() >= 2`: Mutex::lock's cancel arm takes a disabled cancel for an enabled one (or the reverse) and gives up / keeps a lock hand-off wrongly")
+    ctx.must_call(C + "::set_co", Call(AO + "store", on=C + ".co", transitive=False), "cancel-state/set-co-registers", "set_co always publishes the slot to the canceller", rule="R-PAIR")
+    ctx.must_call(C + "::clear", Call(r"may::cancel::CancelIo::clear|<.* as may::cancel::CancelIo>::clear", transitive=False), "cancel-state/clear-clears-io", "clear() always unregisters the io data (a later cancel must not fire into a finished io)", rule="R-PAIR")
+
+
+# ------------------------------------------------------------------------------------------------
+# R-FWD: thin API functions reach the mechanism they stand for on every (coroutine-context) path
+
+def forwarding_rules(ctx, items, rule="R-FWD"):
+    """items: (fid, callee regex, instance, why[, edge predicate, edge label]). Without an edge: every normal path of fid calls the
+    callee (directly or through a helper). With an edge: every path from that edge to the exit does."""
+    for it in items:
+        fid, rx, inst, why = it[:4]
+        B = Call(rx)
+        if len(it) > 4:
+            ctx.must_follow(fid, None, B, inst, why, rule=rule, edge=it[4], edge_label=it[5])
+        else:
+            ctx.must_call(fid, B, inst, why, rule=rule)
+
+IN_CO = call_true(r"may::coroutine_impl::is_coroutine")
+
+def park_api_forwarding(ctx):
+    CI = "may::coroutine_impl"
+    forwarding_rules(ctx, [
+        (CI + "::Coroutine::unpark", r"may::park::Park::unpark(_impl)?", "fwd/coroutine-unpark", "Coroutine::unpark always sets the target's park token"),
+        (CI + "::park", re.escape(CI) + "::park_timeout_impl|may::park::Park::park_timeout", "fwd/park", "coroutine::park parks on the coroutine's own Park"),
+        (CI + "::park_timeout", re.escape(CI) + "::park_timeout_impl|may::park::Park::park_timeout", "fwd/park-timeout", "coroutine::park_timeout parks on the coroutine's own Park"),
+        (CI + "::park_timeout_impl", r"may::park::Park::park_timeout", "fwd/park-impl-in-coroutine", "in coroutine context park_timeout_impl blocks on Park::park_timeout", IN_CO, "edge `is_coroutine()` is true"),
+        ("may::yield_now::set_co_para", r"generator::.*::set_para", "fwd/set-co-para", "set_co_para stores the result into the suspended coroutine"),
+    ])
+
+def cancel_api_forwarding(ctx):
+    forwarding_rules(ctx, [
+        ("may::coroutine_impl::Coroutine::cancel", r"may::cancel::CancelImpl::cancel", "fwd/coroutine-cancel", "Coroutine::cancel always reaches CancelImpl::cancel"),
+    ])
+
+def timer_api_forwarding(ctx):
+    forwarding_rules(ctx, [
+        ("may::scheduler::Scheduler::del_timer", r"may::timeout_list::TimerThread::del_timer", "fwd/scheduler-del-timer", "Scheduler::del_timer hands the handle to the timer thread"),
+        ("may::scheduler::Scheduler::add_timer", r"may::timeout_list::TimerThread::add_timer", "fwd/scheduler-add-timer", "Scheduler::add_timer arms the timer in the timer thread's list"),
+        ("may::sleep::sleep", r"may::yield_now::yield_with", "fwd/sleep-blocks", "in coroutine context sleep suspends the coroutine on its Sleep source", IN_CO, "edge `is_coroutine()` is true"),
+        ("may::sleep::sleep", r"std::thread::sleep", "fwd/sleep-thread", "in thread context sleep is thread::sleep", call_false(r"may::coroutine_impl::is_coroutine"), "edge `is_coroutine()` is false"),
+    ])
+
+def yield_api_forwarding(ctx):
+    forwarding_rules(ctx, [
+        ("may::yield_now::yield_now", r"may::yield_now::yield_with", "fwd/yield-now", "in coroutine context yield_now goes through the scheduler", IN_CO, "edge `is_coroutine()` is true"),
+    ])
+
+
+# ------------------------------------------------------------------------------------------------
+# scheduler: a worker goes idle only with its queues drained; the timer thread delivers Timeout before it resumes (C01, C08)
+
+def scheduler_drain_rules(ctx, rule="R-EXIT"):
+    S = "may::scheduler::Scheduler"
+    RQ = S + "::run_queued_tasks"; CG = S + "::collect_global"
+    f = ctx.fn(rule, RQ, "worker/idle-only-when-drained")
+    if f is not None:
+        HT = r"may_queue::spmc::Local::has_tasks|may::crossbeam_queue_shim::Local::has_tasks"
+        if ctx.an.sites(f, Call(HT, transitive=False), "must"):
+            ctx.guarded(RQ, Ev("ret"), call_false(HT), "worker/idle-only-when-drained", "a worker leaves run_queued_tasks only after it saw its local queue empty behind a drain of its global queue",
+                        rule=rule, pred_label="edge `local.has_tasks()` is false")
+            ctx.order(RQ, Call(re.escape(CG), transitive=False), Ev("ret"), "worker/global-drained-before-idle", "the worker's global queue is drained (collect_global) before the worker goes idle", rule=rule)
+        else:
+            ctx.guarded(RQ, Ev("ret"), variant_of_call(r".*::pop", "None"), "worker/idle-only-when-drained", "a worker leaves run_queued_tasks only when its queue is empty", rule=rule, pred_label="edge `local.pop()` is None")
+    g = ctx.fn(rule, CG, "worker/collect-until-empty")
+    if g is not None:
+        ctx.guarded(CG, Ev("ret"), call_true(r"smallvec::SmallVec::is_empty"), "worker/collect-until-empty", "collect_global returns only after bulk_pop returned an empty batch (a non-empty batch dropped at the return would destroy its coroutines)",
+                    rule=rule, pred_label="edge `v.is_empty()` is true")
+        ctx.must_follow(CG, None, Call(r".*::Local::push_back|may_queue::mpsc::Queue::push|.*::push", transitive=False), "worker/collected-task-moved", "every task of a collected batch is moved into the local queue",
+                        rule="R-PAIR", edge=variant_of_call(r".*::next", "Some"), edge_label="edge `iter.next()` is Some",
+                        exits=lambda h: set(h.ret_points()) | ctx.an.sites(h, Call(r".*::next", transitive=False), "may"))
+
+def timer_handler_rules(ctx, rule="R-ORDER"):
+    IS = "may::scheduler::init_scheduler"
+    f = ctx.fn(rule, IS, "timer-handler/injects-before-resume")
+    if f is None: return
+    stack = [f]; cls = []; seen = set()
+    while stack:
+        g = stack.pop()
+        for c in ctx.prog.closures_of(g):
+            if c.id not in seen: seen.add(c.id); cls.append(c); stack.append(c)
+    SET = Call(r"may::yield_now::set_co_para", transitive=False)
+    RES = Call(r"may::coroutine_impl::run_coroutine|may::scheduler::Scheduler::schedule(_global)?", transitive=False)
+    hs = [c for c in cls if ctx.an.sites(c, Call(AO + "take", transitive=False), "must") and ctx.an.sites(c, RES, "must")]
+    if len(hs) != 1:
+        ctx.missing(rule, IS, "timer-handler/injects-before-resume", "expected exactly one timer handler closure (takes the coroutine and resumes it), found %d" % len(hs)); return
+    h = hs[0]
+    if not ctx.an.sites(h, SET, "must"):
+        ctx.ob(rule, IS, "timer-handler/injects-before-resume", False, "the timer handler resumes the timed-out coroutine without injecting a result: park_timeout / the timed waits report Ok (woken) instead of Timeout", h.where()); return
+    ctx.order(h.id, SET, RES, "timer-handler/injects-before-resume", "the timer handler stores the TimedOut result before the coroutine can run", rule=rule)
+    ctx.must_follow(h.id, None, RES, "timer-handler/taken-coroutine-resumed", "a coroutine taken by the timer handler is always resumed", rule="R-PAIR",
+                    edge=variant_of_call(re.escape(AO) + "take", "Some"), edge_label="edge `c.take()` is Some")
+    # the timer thread runs the timer loop
+    ts = [c for c in cls if ctx.an.may(c, Call(r"may::timeout_list::TimerThread::run", transitive=False))]
+    ok = len(ts) == 1 and ctx.an.must(ts[0], Call(r"may::timeout_list::TimerThread::run", transitive=False))
+    ctx.ob("R-PAIR", IS, "timer-thread/runs-timer-loop", ok, "the timer thread spawned by init_scheduler always enters TimerThread::run" if ok else "no spawned closure of init_scheduler (always) runs TimerThread::run: no timer ever fires", f.where())
+
+
+def origin_reaches_call(f, o, rx, depth=0, seen=None):
+    """does the value described by origin o (in f) come - through phis, aggregates, projections, casts, `?`, or the closure of an
+    Option/Result combinator - from a call whose name matches rx?"""
+    if depth > 10: return False
+    seen = seen if seen is not None else set()
+    o = simplify(o)
+    key = (f.id, o)
+    if key in seen: return False
+    seen.add(key)
+    k = o[0]
+    if k == "call":
+        if re.fullmatch(rx, o[2] or ""): return True
+        t = f.term(o[1])
+        if re.search(r"option::Option::(map|and_then|or_else|map_or|map_or_else|or|xor|take|replace)$|result::Result::(map|and_then|ok)$|convert::(Into::into|From::from)$|ops::Try::branch$|clone::Clone::clone$", o[2] or ""):
+            for cid in closure_args(f, t):
+                c = f.prog.fn(norm(cid))
+                if c is not None and origin_reaches_call(c, trace_local(c, 0), rx, depth + 1, seen): return True
+            return any(origin_reaches_call(f, trace_operand(f, a), rx, depth + 1, seen) for a in t["args"][:1])
+        return False
+    if k == "phi": return any(origin_reaches_call(f, a, rx, depth + 1, seen) for a in o[2])
+    if k == "agg": return any(origin_reaches_call(f, a, rx, depth + 1, seen) for a in (o[3] or ()))
+    if k in ("field", "cast", "ref", "deref", "downcast", "discr"): return origin_reaches_call(f, o[1], rx, depth + 1, seen)
+    if k == "un": return origin_reaches_call(f, o[2], rx, depth + 1, seen)
+    return False
+
+
+def mutex_cancel_arm_rules(ctx, rule="R-EXIT"):
+    """Mutex::lock is called with the cancel disabled by Condvar::wait's re-lock (and under CancelDisableGuard): there a Cancel panic
+    must not be raised - the waiter retries with a fresh blocker; with the cancel enabled it must be raised (the coroutine stops)."""
+    ML = "may::sync::mutex::Mutex::lock"
+    f = ctx.fn(rule, ML, "mutex/cancel-panic-only-if-enabled")
+    if f is None: return
+    DIS = r"may::cancel::CancelImpl::is_disabled"
+    enabled = lambda a: a.kind == "truth" and a.truth is False and origin_reaches_call(f, a.origin, DIS)
+    disabled = lambda a: a.kind == "truth" and a.truth is True and origin_reaches_call(f, a.origin, DIS)
+    TRG = Call(r"may::cancel::trigger_cancel_panic", transitive=False)
+    if not ctx.edges(f, enabled) or not ctx.an.sites(f, TRG, "must"):
+        ctx.missing(rule, ML, "mutex/cancel-panic-only-if-enabled", "`is_disabled()` false edges=%d trigger_cancel_panic sites=%d" % (len(ctx.edges(f, enabled)), len(ctx.an.sites(f, TRG, "must")))); return
+    ctx.guarded(ML, TRG, enabled, "mutex/cancel-panic-only-if-enabled", "Mutex::lock raises the Cancel panic only when the cancel is not disabled (Condvar::wait re-locks with it disabled and must get the mutex back)",
+                rule=rule, pred_label="edge `cancel.is_disabled()` is false")
+    # a hand-off that was received (park returned Ok) is accepted: the waiter does not queue again, it builds the guard
+    okp = variant_of_call(r"may::sync::blocking::SyncBlocker::park", "Ok")
+    requeue = ctx.an.sites(f, Call(MQ_MPSC + "push", on="may::sync::mutex::Mutex.to_wake", transitive=False), "must") | ctx.an.sites(f, Call(r"may::sync::blocking::SyncBlocker::park", transitive=False), "must")
+    eo = ctx.edges(f, okp)
+    if eo and requeue:
+        r0 = ctx.an.reach(f, [Point(tb, 0) for _, tb, _ in eo], blocked=ctx.an.sites(f, Call(r"may::sync::mutex::MutexGuard::new", transitive=False), "must"))
+        bad0 = sorted(x for x in requeue if x in r0)
+        ctx.ob(rule, ML, "mutex/handoff-accepted", not bad0, "after park() returned Ok (the unlocker handed the lock over) lock() goes straight to MutexGuard::new" if not bad0 else
+               "Mutex::lock can queue / park again after park() returned Ok: it already owns the lock (cnt counts it), so it waits for itself for ever", f.where(bad0[0]) if bad0 else f.where())
+    else:
+        ctx.missing(rule, ML, "mutex/handoff-accepted", "park-Ok edges=%d push/park sites=%d" % (len(eo), len(requeue)))
+    forwarding_rules(ctx, [("may::sync::mutex::unlock_mutex", r"may::sync::mutex::Mutex::unlock", "fwd/unlock-mutex", "unlock_mutex (used by Condvar::wait to release the caller's mutex) always unlocks")])
+    # on the cancel arm with the cancel enabled the function does not go back to waiting: it panics
+    err = variant_of_call(r"may::sync::blocking::SyncBlocker::park", "Err")
+    es = [e for e in ctx.edges(f, enabled)]
+    parks = ctx.an.sites(f, Call(r"may::sync::blocking::SyncBlocker::park", transitive=False), "must")
+    trg = ctx.an.sites(f, TRG, "must")
+    # last `enabled` edge on the arm: from it, a park must not be reachable without passing the trigger
+    arm = ctx.an.reach(f, [Point(tb, 0) for _, tb, _ in ctx.edges(f, err)], blocked=parks)
+    last = [(bi, tb, lab) for (bi, tb, lab) in es if Point(bi, 0) in arm]
+    bad = []
+    for bi, tb, lab in last:
+        r = ctx.an.reach(f, [Point(tb, 0)], blocked=trg | set(x for x in f.points() if f.is_term(x) and f.node(x)["t"] == "sw" and x.bb != bi and
+                         any(enabled(a) or disabled(a) for t2, l2 in f.term_succs(x.bb) for a in edge_atoms(ctx.prog, f, x.bb, l2))))
+        if any(p0 in r for p0 in parks) or any(x in r for x in f.ret_points()): bad.append(bi)
+    # only the LAST decision of the arm is binding (the earlier ones choose between break / unlock)
+    okl = bool(last) and len(bad) < len(last)
+    ctx.ob(rule, ML, "mutex/enabled-cancel-stops-waiter", okl, "with the cancel enabled the cancel arm of Mutex::lock ends in the Cancel panic (the cancelled coroutine does not queue again)" if okl else
+           "Mutex::lock's cancel arm can go back to waiting / return although the cancel is enabled: a cancelled coroutine is not stopped at this lock()", f.where(sorted(trg)[0]))
